@@ -212,7 +212,9 @@ Inductive obs :=
 | InvPeerCfg (id : N) | RetPeerCfg (id : N)   (* a UAPI set with a peer section (handlePostConfig may start the peer) *)
 | ObsBegin (id : N)                             (* the harness is about to read the peers' run state (number taken BEFORE the reads) *)
 | PeerRunning (id : N)                          (* ... and found a peer running (number taken AFTER the reads) *)
-| RecvLoopRunning (id : N).                     (* ... and found a RoutineReceiveIncoming goroutine parked in its loop (two scans) *)
+| RecvLoopRunning (id : N)
+| SendEnter (id : N)                            (* a bind.Send call has started (stamped inside sim.Bind.Send's gate, before the datagram is handed over) *)
+| SendExit (id : N).                            (* ... and is about to complete *)                     (* ... and found a RoutineReceiveIncoming goroutine parked in its loop (two scans) *)
 
 Local Open Scope N_scope.
 
@@ -239,12 +241,14 @@ Record mon := {
   m_obsq : list (N * N);
   m_obsc : list (N * N);
   (* observations that began inside a quiet window (clean Down returned, no Up invoked): (id, upgen then) *)
-  m_obsr : list (N * N)
+  m_obsr : list (N * N);
+  (* bind.Send calls that started while the bind was open and have not completed *)
+  m_sends : list (N * N)
 }.
 
 Definition mon0 : mon :=
   {| m_open := false; m_prevclose := false; m_upfl := 0; m_upgen := 0; m_downs := []; m_quiet := false; m_closed := false;
-     m_psfl := 0; m_cfggen := 0; m_pdowns := []; m_pquiet := false; m_obsq := []; m_obsc := []; m_obsr := [] |}.
+     m_psfl := 0; m_cfggen := 0; m_pdowns := []; m_pquiet := false; m_obsq := []; m_obsc := []; m_obsr := []; m_sends := [] |}.
 
 Fixpoint lookup (id : N) (l : list (N * N)) : option N :=
   match l with
@@ -261,18 +265,27 @@ Fixpoint remove_id (id : N) (l : list (N * N)) : list (N * N) :=
    clean Down returned; 3 = Open or accepted Send after Close returned; 4 = bind still open when
    a clean Down / Close returned; 7 = a receive loop observed parked in its loop, the whole
    observation lying inside a quiet window or after Close returned;
+   8 = a bind.Send call that started on the open bind is still in progress when a clean Down /
+   Close returns (the datagram can still go out after the caller was told the device is down);
    NOT clauses of the property: 5 (model conformance) = Open not directly preceded by Close;
+   9 (model conformance) = bind.Close called while a bind.Send that started on the open bind is
+   in progress (the model, like the code, holds net.RLock across the send);
    6 (informational) = a peer observed running inside a p-quiet window or after Close returned --
    the property text does not demand stopped peers after Down (the bind is closed), and a Down
    that finds the device already down does not stop a peer started by the handlePostConfig race. *)
 Definition mset (m : mon) (o pc : bool) (upfl upgen : N) (downs : list (N * N)) (q cl : bool)
                 (psfl cfggen : N) (pdowns : list (N * N)) (pq : bool) : mon :=
   {| m_open := o; m_prevclose := pc; m_upfl := upfl; m_upgen := upgen; m_downs := downs; m_quiet := q; m_closed := cl;
-     m_psfl := psfl; m_cfggen := cfggen; m_pdowns := pdowns; m_pquiet := pq; m_obsq := m_obsq m; m_obsc := m_obsc m; m_obsr := m_obsr m |}.
+     m_psfl := psfl; m_cfggen := cfggen; m_pdowns := pdowns; m_pquiet := pq; m_obsq := m_obsq m; m_obsc := m_obsc m; m_obsr := m_obsr m; m_sends := m_sends m |}.
 Definition mset_obs (m : mon) (oq oc orr : list (N * N)) : mon :=
   {| m_open := m_open m; m_prevclose := m_prevclose m; m_upfl := m_upfl m; m_upgen := m_upgen m; m_downs := m_downs m;
      m_quiet := m_quiet m; m_closed := m_closed m; m_psfl := m_psfl m; m_cfggen := m_cfggen m; m_pdowns := m_pdowns m;
-     m_pquiet := m_pquiet m; m_obsq := oq; m_obsc := oc; m_obsr := orr |}.
+     m_pquiet := m_pquiet m; m_obsq := oq; m_obsc := oc; m_obsr := orr; m_sends := m_sends m |}.
+Definition mset_sends (m : mon) (ss : list (N * N)) : mon :=
+  {| m_open := m_open m; m_prevclose := m_prevclose m; m_upfl := m_upfl m; m_upgen := m_upgen m; m_downs := m_downs m;
+     m_quiet := m_quiet m; m_closed := m_closed m; m_psfl := m_psfl m; m_cfggen := m_cfggen m; m_pdowns := m_pdowns m;
+     m_pquiet := m_pquiet m; m_obsq := m_obsq m; m_obsc := m_obsc m; m_obsr := m_obsr m; m_sends := ss |}.
+Definition sending (m : mon) : bool := match m_sends m with [] => false | _ :: _ => true end.
 
 Definition mstep (m : mon) (e : obs) : mon * list N :=
   match e with
@@ -281,7 +294,8 @@ Definition mstep (m : mon) (e : obs) : mon * list N :=
        (if m_open m then [1] else []) ++ (if m_closed m then [3] else if m_quiet m then [2] else [])
        ++ (if m_prevclose m then [] else [5]))
   | BClose =>
-      (mset m false true (m_upfl m) (m_upgen m) (m_downs m) (m_quiet m) (m_closed m) (m_psfl m) (m_cfggen m) (m_pdowns m) (m_pquiet m), [])
+      (mset m false true (m_upfl m) (m_upgen m) (m_downs m) (m_quiet m) (m_closed m) (m_psfl m) (m_cfggen m) (m_pdowns m) (m_pquiet m),
+       if sending m then [9] else [])
   | BSend => (m, if m_closed m then [3] else if m_quiet m then [2] else [])
   | BRefused => (m, [])
   | InvUp _ =>
@@ -306,12 +320,14 @@ Definition mstep (m : mon) (e : obs) : mon * list N :=
       let pclean := match lookup id (m_pdowns m) with Some g => g =? m_cfggen m | None => false end in
       (mset m (m_open m) (m_prevclose m) (m_upfl m) (m_upgen m) (remove_id id (m_downs m)) (m_quiet m || clean) (m_closed m)
             (m_psfl m) (m_cfggen m) (remove_id id (m_pdowns m)) (m_pquiet m || pclean),
-       if clean && m_open m then [4] else [])
+       (if clean && m_open m then [4] else []) ++ (if clean && sending m then [8] else []))
   | InvClose _ => (m, [])
   | RetClose _ =>
       (mset m (m_open m) (m_prevclose m) (m_upfl m) (m_upgen m) (m_downs m) (m_quiet m) true
             (m_psfl m) (m_cfggen m) (m_pdowns m) (m_pquiet m),
-       if m_open m then [4] else [])
+       (if m_open m then [4] else []) ++ (if sending m then [8] else []))
+  | SendEnter id => (if m_open m then mset_sends m ((id, 0) :: m_sends m) else m, [])
+  | SendExit id => (mset_sends m (remove_id id (m_sends m)), [])
   | ObsBegin id =>
       (mset_obs m (if m_pquiet m then (id, m_cfggen m) :: m_obsq m else m_obsq m)
                   (if m_closed m then (id, 0) :: m_obsc m else m_obsc m)
@@ -338,16 +354,16 @@ Fixpoint monitor (m : mon) (tr : list obs) (i : N) : list (N * N) :=
   | e :: r => let '(m1, v) := mstep m e in map (fun k => (k, i)) v ++ monitor m1 r (i + 1)
   end.
 
-(* the property on an observed trace: clauses 1-4 and 7 *)
+(* the property on an observed trace: clauses 1-4, 7 and 8 *)
 Definition holdsb (tr : list obs) : bool :=
-  forallb (fun p => (fst p =? 5) || (fst p =? 6)) (monitor mon0 tr 0).
+  forallb (fun p => (fst p =? 5) || (fst p =? 6) || (fst p =? 9)) (monitor mon0 tr 0).
 (* informational: some peer was seen running where the model (without the handlePostConfig race
    and without no-op Downs) has them stopped *)
 Definition saw_running_peerb (tr : list obs) : bool :=
   existsb (fun p => fst p =? 6) (monitor mon0 tr 0).
 (* conformance with the model's stronger output shape: clause 5 *)
 Definition conformsb (tr : list obs) : bool :=
-  forallb (fun p => negb (fst p =? 5)) (monitor mon0 tr 0).
+  forallb (fun p => negb ((fst p =? 5) || (fst p =? 9))) (monitor mon0 tr 0).
 
 (* the bind-call projection of an observed trace, to connect with nodoubleb *)
 Fixpoint bind_calls (tr : list obs) : list out :=
